@@ -230,8 +230,14 @@ def termPrint (st : State) (mem : Bytes) : Outcome :=
   if !(mem.contains 0) then .ub "tickit_term_print: strlen runs past the end of str"
   else drvPrint st mem (cstrlen mem)
 
-/-- `tickit_term_printn`. -/
-def termPrintn (st : State) (mem : Bytes) (len : Nat) : Outcome := drvPrint st mem len
+/-- `tickit_term_printn`: since 6b09beb a zero length returns at once (`printn_zero_len_returns`, read from the
+    source), so the `0 ⇒ strlen` convention of `write_str` is no longer reachable from this call. -/
+def termPrintn (st : State) (mem : Bytes) (len : Nat) : Outcome :=
+  if printn_zero_len_returns = true ∧ len = 0 then .ok st else drvPrint st mem len
+
+/-- What `tickit_term_printn(tt, mem, len)` asks to be output. -/
+def printnBytes (mem : Bytes) (len : Nat) : Bytes :=
+  if printn_zero_len_returns = true ∧ len = 0 then [] else effective mem len
 
 /-- `tickit_term_vprintf`: size pass with `vsnprintf(NULL, 0, …)`, then the tmpbuffer. -/
 def termVprintf (st : State) (s : Bytes) : Outcome :=
@@ -253,7 +259,9 @@ def termPause (st : State) : Outcome :=
   (if pause_is_teardown then drvTeardown st else .ok st).bind fun st =>
   .ok (if term_pause_flushes then flush st else st)
 
-/-- `tickit_term_resume`. -/
+/-- `tickit_term_resume`.  Since 10b95e5 it ends with `chpen(driver, tt->pen, tt->pen)` (`term_resume_resends_pen`);
+    no modelled call sets the terminal pen, so the cached pen is empty, xterm's `chpen` finds no attribute
+    (`pindex == 0`) and writes nothing: a no-op for the byte stream. -/
 def termResume (st : State) : Outcome :=
   (drvResume st).bind fun st => .ok (if term_resume_flushes then flush st else st)
 
